@@ -74,7 +74,8 @@ def _is_observer_of_shutdown_subject(ref, nodes, preds, expected):
     return bool(nd["repeat"]) and any(nodes[p]["stage"] == nd["stage"] and expected[p] == SHUTDOWN for p in preds[ref])
 
 
-def _explained_by_observer_finding(W, script, nodes, preds, expected, actual, in_run_stages, allow_shutdown=False):
+def _explained_by_observer_finding(W, script, nodes, preds, expected, actual, in_run_stages, allow_shutdown=False,
+                                   memo=()):
     """True when every difference between actual and rule states follows from repeating components that ended
     'finished' although a same-stage producer ended shut down (the open known finding) - including its downstream
     consequences (their consumers then are not shut down either)."""
@@ -83,7 +84,7 @@ def _explained_by_observer_finding(W, script, nodes, preds, expected, actual, in
               and _is_observer_of_shutdown_subject(r, nodes, preds, expected)}
     if not forced:
         return False
-    alt = wfcase.rule_states(W, script, force=forced)
+    alt = wfcase.rule_states(W, script, force=forced, memo=memo)
     for r in in_run_stages:
         if actual[r] == alt[r] or (allow_shutdown and actual[r] == SHUTDOWN):
             continue
@@ -95,7 +96,7 @@ def evaluate(case, res, mon, sched_name):
     """Oracles (1)-(4) for one execution."""
     W, script = case["W"], case["script"]
     nodes, preds = wfgen.expand(W)
-    expected = wfcase.rule_states(W, script)
+    expected = wfcase.rule_states(W, script, memo=case.get("memo", ()))
     if res.stuck:
         active = {r: s for r, s in res.states.items() if s not in FINAL}
         raise Violation("stage-loop-does-not-terminate",
@@ -119,7 +120,8 @@ def evaluate(case, res, mon, sched_name):
     # only nodes that can actually be reached (no failed/shutdown ancestor) exit unrecoverably in every ordering
     if not unrecoverable:
         bad = {r: (res.states[r], expected[r]) for r in in_run_stages if res.states[r] != expected[r]}
-        if bad and _explained_by_observer_finding(W, script, nodes, preds, expected, res.states, in_run_stages):
+        if bad and _explained_by_observer_finding(W, script, nodes, preds, expected, res.states, in_run_stages,
+                                                  memo=case.get("memo", ())):
             raise Violation("observer-of-shutdown-subject-finishes",
                             "[%s] repeating component(s) %s end 'finished' although a same-stage producer ended "
                             "shut down (rules: consumers of shut-down producers are shut down); script %s" % (
@@ -145,7 +147,7 @@ def evaluate(case, res, mon, sched_name):
     bad = {r: (res.states[r], expected[r]) for r in in_run_stages
            if res.states[r] not in (expected[r], SHUTDOWN)}
     if bad and _explained_by_observer_finding(W, script, nodes, preds, expected, res.states, in_run_stages,
-                                              allow_shutdown=True):
+                                              allow_shutdown=True, memo=case.get("memo", ())):
         raise Violation("observer-of-shutdown-subject-finishes",
                         "[%s] repeating component(s) %s end 'finished' although a same-stage producer ended shut down; "
                         "script %s" % (sched_name, sorted(bad), script))
@@ -157,7 +159,7 @@ def evaluate(case, res, mon, sched_name):
 
 def run(case, ctx: Ctx, chooser: Chooser):
     W, script = case["W"], case["script"]
-    full = {"W": W, "script": script, "choices": None}
+    full = {"W": W, "script": script, "memo": case.get("memo", []), "choices": None}
     orders = []
     kinds = []
     variants = case.get("variants")
